@@ -580,6 +580,8 @@ def judge(kind, x, y, cfg, mech, o, problem):
                     "dget": "{x: 1}.get(y)"}[k]
             return "%s raised %s: %s (%s)" % (what, o[k][1], o[k][2], where), False
     want = spec_eq(x, y, cfg)
+    if x is y and isinstance(x, Record):
+        want = True                      # reflexivity is demanded outright (also for NaN)
     eq = o["eq"][1]
     coin = coincidence(x, y, cfg)
     if not isinstance(eq, bool):
